@@ -234,7 +234,7 @@ pub fn space(run: &Run) -> Space {
     let mut sp = Space { jobs, units: vec![], counts, lens, len_product: 3, max_len };
     // units: chunks of consecutive jobs of about equal weight (strings of the main run plus the
     // tokenizers of the product part, each about as expensive as 520 strings)
-    let target: usize = if quick { 40_000 } else { 600_000 };
+    let target: usize = if quick { 40_000 } else { 300_000 };
     let (mut start, mut w) = (0usize, 0usize);
     for (i, j) in sp.jobs.iter().enumerate() {
         let n = match &j.kind {
@@ -687,6 +687,7 @@ pub fn drive(id: &'static str, mut oracle: impl Oracle) -> ! {
     run.bounds.insert("train_merges".into(), json!(TRAIN_MERGES));
     run.extra.insert("rule".into(), json!(oracle.rule()));
     run.assumptions.push("the reference encoder refs::bpe_encode_word / refs::bpe_words (written from the statement) is memoised per distinct word of the string set; composition as in refs::bpe_encode".into());
+    run.assumptions.push("train_bpe breaks frequency ties by HashMap iteration order, so the table obtained for a (corpus, merges) unit may differ between runs (every tie-break is a legitimate member of the space; a stored case carries its table, so replay is deterministic)".into());
     run.assumptions.push("tables from train_bpe are used only if they have ids 0..n-1 and pass refs::table_well_formed (the properties are conditional on well-formedness; a malformed trained table is C19's alarm)".into());
     let scratch = Scratch::new(&id.to_lowercase());
     let mut buf: Vec<u32> = vec![];
